@@ -36,6 +36,56 @@ func c12Expr(x ast.Expr) string {
 	return "?"
 }
 
+// c12ExprL renders like c12Expr but is insensitive to the NAMES of local variables and parameters: a parameter of
+// the function registered with c12SetParams becomes "$<position>", any other local variable "_"; field, method,
+// function, constant and package-level names are kept.
+var c12Params = map[*ast.Object]int{}
+
+func c12SetParams(fd *ast.FuncDecl) {
+	c12Params = map[*ast.Object]int{}
+	k := 0
+	if fd.Type.Params != nil {
+		for _, f := range fd.Type.Params.List {
+			for _, n := range f.Names {
+				k++
+				if n.Obj != nil {
+					c12Params[n.Obj] = k
+				}
+			}
+		}
+	}
+}
+
+func c12ExprL(x ast.Expr) string {
+	switch v := x.(type) {
+	case *ast.Ident:
+		if v.Obj != nil && v.Obj.Kind == ast.Var {
+			if k, ok := c12Params[v.Obj]; ok {
+				return fmt.Sprintf("$%d", k)
+			}
+			return "_"
+		}
+		return v.Name
+	case *ast.SelectorExpr:
+		return v.Sel.Name
+	case *ast.CallExpr:
+		var as []string
+		for _, a := range v.Args {
+			as = append(as, c12ExprL(a))
+		}
+		return c12ExprL(v.Fun) + "(" + strings.Join(as, ",") + ")"
+	case *ast.UnaryExpr:
+		return v.Op.String() + c12ExprL(v.X)
+	case *ast.BinaryExpr:
+		return c12ExprL(v.X) + v.Op.String() + c12ExprL(v.Y)
+	case *ast.BasicLit:
+		return v.Value
+	case *ast.IndexExpr:
+		return c12ExprL(v.X) + "[" + c12ExprL(v.Index) + "]"
+	}
+	return "?"
+}
+
 // c12Calls lists, in source order, the calls made by the top-level statements of a block: expression
 // statements and single-value assignments / definitions whose right-hand side is a call.
 func c12Calls(list []ast.Stmt) []string {
@@ -44,12 +94,12 @@ func c12Calls(list []ast.Stmt) []string {
 		switch v := st.(type) {
 		case *ast.ExprStmt:
 			if c, ok := v.X.(*ast.CallExpr); ok {
-				out = append(out, c12Expr(c))
+				out = append(out, c12ExprL(c))
 			}
 		case *ast.AssignStmt:
 			if len(v.Rhs) == 1 {
 				if c, ok := v.Rhs[0].(*ast.CallExpr); ok {
-					out = append(out, c12Expr(c))
+					out = append(out, c12ExprL(c))
 				}
 			}
 		}
@@ -61,18 +111,18 @@ func c12Calls(list []ast.Stmt) []string {
 // the two first arguments resolved through the function's local `x, err := f(...)` / `x := f(...)` definitions;
 // a call that is not a top-level statement of the function body is rendered with the prefix "nested:".
 func c12Sweeps(fd *ast.FuncDecl) []string {
+	c12SetParams(fd)
 	def := map[string]string{}
 	for _, st := range fd.Body.List {
 		if as, ok := st.(*ast.AssignStmt); ok && len(as.Rhs) == 1 && len(as.Lhs) >= 1 {
-			def[c12Expr(as.Lhs[0])] = c12Expr(as.Rhs[0])
+			def[c12Expr(as.Lhs[0])] = c12ExprL(as.Rhs[0])
 		}
 	}
 	res := func(x ast.Expr) string {
-		s := c12Expr(x)
-		if d, ok := def[s]; ok {
+		if d, ok := def[c12Expr(x)]; ok {
 			return d
 		}
-		return s
+		return c12ExprL(x)
 	}
 	top := map[*ast.CallExpr]bool{}
 	for _, st := range fd.Body.List {
@@ -88,7 +138,7 @@ func c12Sweeps(fd *ast.FuncDecl) []string {
 		if !ok || c12Expr(c.Fun) != "writeBECgroupsCPUSet" || len(c.Args) != 3 {
 			return true
 		}
-		s := res(c.Args[0]) + "|" + res(c.Args[1]) + "|" + c12Expr(c.Args[2])
+		s := res(c.Args[0]) + "|" + res(c.Args[1]) + "|" + c12ExprL(c.Args[2])
 		if !top[c] {
 			s = "nested:" + s
 		}
@@ -214,6 +264,7 @@ func init() {
 		//     "if:<cond>:continue" / "call:<lhs>=<call>" / "cache" (ResourceCache.SetDefault) / "if:<cond>" / "other"
 		var skel []string
 		if fd := e.funcDecl(d, "ResourceUpdateExecutorImpl", "LeveledUpdateBatch"); fd != nil && fd.Body != nil {
+			c12SetParams(fd)
 			for _, st := range fd.Body.List {
 				fs, ok := st.(*ast.ForStmt)
 				if !ok {
@@ -228,7 +279,7 @@ func init() {
 					for _, b := range rs.Body.List {
 						switch v := b.(type) {
 						case *ast.IfStmt:
-							it := "if:" + c12Expr(v.Cond)
+							it := "if:" + c12ExprL(v.Cond)
 							if n := len(v.Body.List); n > 0 {
 								if br, ok := v.Body.List[n-1].(*ast.BranchStmt); ok && br.Tok == token.CONTINUE {
 									it += ":continue"
@@ -238,7 +289,7 @@ func init() {
 						case *ast.AssignStmt:
 							if len(v.Rhs) == 1 {
 								if c, ok := v.Rhs[0].(*ast.CallExpr); ok {
-									cs := c12Expr(c)
+									cs := c12ExprL(c)
 									if strings.HasPrefix(cs, "SetDefault(") {
 										items = append(items, "cache")
 									} else {
@@ -263,19 +314,20 @@ func init() {
 						}
 					}
 				}
-				skel = append(skel, strings.Join(items, " ; "))
+				skel = append(skel, c12StrList(items))
 			}
 		}
 		fmt.Fprintf(&e.out, "/-- statement skeleton of the body of each sweep of LeveledUpdateBatch -/\n")
-		fmt.Fprintf(&e.out, "def passSkeleton : List String := %s\n\n", c12StrList(skel))
+		fmt.Fprintf(&e.out, "def passSkeleton : List (List String) := [%s]\n\n", strings.Join(skel, ",\n  "))
 		// isUpdateErrIgnored: the predicates that make an error ignored
 		var ign []string
 		if fd := e.funcDecl(d, "ResourceUpdateExecutorImpl", "isUpdateErrIgnored"); fd == nil || fd.Body == nil {
 			e.fail("isUpdateErrIgnored not found")
 		} else {
+			c12SetParams(fd)
 			for _, st := range fd.Body.List {
 				if is, ok := st.(*ast.IfStmt); ok {
-					ign = append(ign, c12Expr(is.Cond))
+					ign = append(ign, c12ExprL(is.Cond))
 				}
 			}
 		}
@@ -374,6 +426,7 @@ func init() {
 		if fd := e.funcDecl(cs, "CPUSuppress", "applyBESuppressCPUSet"); fd == nil || fd.Body == nil {
 			e.fail("applyBESuppressCPUSet not found")
 		} else {
+			c12SetParams(fd)
 			for _, st := range fd.Body.List {
 				is, ok := st.(*ast.IfStmt)
 				if !ok {
@@ -382,7 +435,7 @@ func init() {
 				if is.Else == nil {
 					if cond == "" && len(is.Body.List) > 0 {
 						if _, ret := is.Body.List[len(is.Body.List)-1].(*ast.ReturnStmt); ret {
-							guards = append(guards, c12Expr(is.Cond)) // guard before the policy branch
+							guards = append(guards, c12ExprL(is.Cond)) // guard before the policy branch
 						}
 					}
 					continue
@@ -390,7 +443,7 @@ func init() {
 				if cond != "" {
 					e.fail("applyBESuppressCPUSet: more than one if/else")
 				}
-				cond = c12Expr(is.Cond)
+				cond = c12ExprL(is.Cond)
 				thenCalls = c12Calls(is.Body.List)
 				if eb, ok := is.Else.(*ast.BlockStmt); ok {
 					elseCalls = c12Calls(eb.List)
@@ -413,7 +466,7 @@ func init() {
 				sw = c12Sweeps(fd)
 				if len(fd.Body.List) > 0 {
 					if is, ok := fd.Body.List[0].(*ast.IfStmt); ok {
-						firstGuard = c12Expr(is.Cond)
+						firstGuard = c12ExprL(is.Cond)
 					}
 				}
 			}
@@ -432,8 +485,9 @@ func init() {
 				e.fail("%s not found", fn.name)
 			} else {
 				ast.Inspect(fd.Body, func(n ast.Node) bool {
-					if b, ok := n.(*ast.BinaryExpr); ok {
-						if id, ok := b.Y.(*ast.Ident); ok && id.Name == "absDepth" {
+					// the comparison of the walked path's separator count: strings.Count(path, sep) <op> <depth>
+					if b, ok := n.(*ast.BinaryExpr); ok && strings.HasPrefix(c12Expr(b.X), "Count(") {
+						if b.Op == token.LEQ || b.Op == token.EQL || b.Op == token.LSS || b.Op == token.GEQ || b.Op == token.GTR || b.Op == token.NEQ {
 							op += b.Op.String()
 						}
 					}
